@@ -242,6 +242,9 @@ func isPermutation[T comparable](a, b []T) bool {
 }
 
 func (s *listSubj[T]) check(o *Oracle) {
+	if len(o.Active) == 0 {
+		return // C18 write phases: no observer may run on the container (it would warm lazily built state)
+	}
 	vals := s.l.Values()
 	if o.On("C03") || o.On("C16") {
 		tag := "C03"
